@@ -2,6 +2,7 @@
 package c14
 
 import (
+	"errors"
 	"fmt"
 	"net/http"
 	"net/http/httptest"
@@ -111,13 +112,16 @@ func TestC14_RateProjection(t *testing.T) {
 		for i := 0; i < n; i++ {
 			src := rapid.IntRange(0, nsrc-1).Draw(t, "src")
 			if plans && rapid.IntRange(0, 9).Draw(t, "switchPlan") == 0 {
-				curPlan[src] = rapid.IntRange(0, 2).Draw(t, "plan")
+				// 0 default rates, 1/2 shared plans, 3 the rate extractor fails, 4 it returns an empty set
+				// (both documented to fall back to the default rates)
+				curPlan[src] = rapid.IntRange(0, 4).Draw(t, "plan")
 			}
 			hist = append(hist, step{now, src, int64(rapid.IntRange(1, 3).Draw(t, "amt")), curPlan[src]})
 			if rapid.IntRange(0, 2).Draw(t, "adv") > 0 {
 				now += rapid.SampledFrom(gaps).Draw(t, "gap")
 			}
 		}
+		normalize := false // true: plans 3 and 4 are replaced by plan 0 (must make no difference)
 		run := func(only int) [][]string {
 			clock.Freeze(epoch.Add(phase))
 			tl, sv := newLimiter(t, rs, capacity)
@@ -129,6 +133,10 @@ func TestC14_RateProjection(t *testing.T) {
 						return planSets[0], nil
 					case "2":
 						return planSets[1], nil
+					case "3":
+						return nil, errors.New("rate lookup failed")
+					case "4":
+						return ratelimit.NewRateSet(), nil
 					}
 					return rs, nil
 				}))}
@@ -151,11 +159,25 @@ func TestC14_RateProjection(t *testing.T) {
 				if only >= 0 && s.src != only {
 					continue
 				}
-				out[s.src] = append(out[s.src], ask(t, tl, sv, "s"+strconv.Itoa(s.src)+"|"+strconv.Itoa(s.plan), s.amt))
+				plan := s.plan
+				if normalize && plan >= 3 {
+					plan = 0
+				}
+				out[s.src] = append(out[s.src], ask(t, tl, sv, "s"+strconv.Itoa(s.src)+"|"+strconv.Itoa(plan), s.amt))
 			}
 			return out
 		}
 		together := run(-1)
+		if plans {
+			normalize = true
+			same := run(-1)
+			normalize = false
+			for s := 0; s < nsrc; s++ {
+				if strings.Join(same[s], " ") != strings.Join(together[s], " ") {
+					t.Fatalf("source s%d: a failing or empty rate lookup must fall back to the default rates, but the decisions differ from those under the default rates:\n with failing/empty lookups: %v\n with default rates:         %v\n history(at,src,amt,plan)=%v", s, together[s], same[s], hist)
+				}
+			}
+		}
 		rejected := 0
 		for s := 0; s < nsrc; s++ {
 			alone := run(s)[s]
